@@ -120,7 +120,6 @@ Section texit.
     unfold c. rewrite (leave_in 0 gd ms sh s w a t0 _ _ t1 l _ E1 Hfc' Hen Hri') by lia.
     assert (E0 : (0 <? t1 - t0) = true) by (apply N.ltb_lt; lia). rewrite E0. cbn [orb].
     eexists. split; [reflexivity|].
-    rewrite <- E1 in Hout.
     destruct w.
     - pose proof (Hw eq_refl) as AW.
       assert (AWt : all_written (nf sh true a t0 (N.of_nat (length stk)) (N.of_nat (length stk)) :: l))
@@ -215,10 +214,10 @@ Section texit.
       destruct w.
       + pose proof (Hw eq_refl) as AW.
         rewrite IH; cbn [stack fc enabled ridx out]; try assumption; try reflexivity; [|cbn [length] in Hn; lia].
-        rewrite (flush_written _ AW). cbn [snd]. rewrite !app_nil_r.
         assert (AWt : all_written (nf sh true a t0 (N.of_nat (length stk)) (N.of_nat (length stk)) :: l))
           by (constructor; [reflexivity|exact AW]).
-        rewrite (flush_written _ AWt). cbn [snd]. rewrite app_nil_r. reflexivity.
+        rewrite (flush_written _ AW). cbn [snd]. rewrite ?app_nil_r.
+        rewrite ?(flush_written _ AWt). cbn [snd]. rewrite ?app_nil_r. reflexivity.
       + destruct (flush_wfs l stk Hl) as [W1 W2].
         rewrite IH; cbn [stack fc enabled ridx out]; try assumption; try reflexivity; [|cbn [length] in Hn; lia].
         rewrite (flush_written _ W2). cbn [snd]. rewrite app_nil_r.
